@@ -197,8 +197,14 @@ def _rechunk(stream: bytes, rng: random.Random) -> List[bytes]:
 
 async def _run_sessions(combos: List[Tuple[str, str, str, str]], rng: random.Random, thorough: bool) -> List[Dict[str, Any]]:
     out = []
-    for combo in combos:
-        out.append(await ts.run_session(*combo, rng=rng, sizes=_sizes(rng, thorough)))
+    for i, combo in enumerate(combos):
+        # every third session re-keys several times on the way (client side byte limit): framing, sequence numbers
+        # and key epochs must stay in step across NEWKEYS, whichever cipher family frames the packets
+        rekey = rng.choice([3000, 9000, 20000]) if i % 3 == 2 else None
+        sizes = _sizes(rng, thorough)
+        if rekey:
+            sizes = sizes + [rng.choice([4000, 9000])] * 3
+        out.append(await ts.run_session(*combo, rng=rng, sizes=sizes, rekey_bytes=rekey))
     return out
 
 
